@@ -163,3 +163,26 @@ Definition model_of (k : case) : mview :=
 
 Lemma check_case_sound_A c seen : check_case (CA c seen) = true -> seen = outcome_of c.
 Proof. cbn. intros H. apply andb_true_iff in H as [H _]. symmetry. now apply outcome_eqb_sound. Qed.
+
+(** ** script-level tie (supplementary): the parsed source text of a real generated
+    [__hash__] against [make_hash_script] of the class. *)
+Inductive script_case := SC (c : cls) (parsed : hscript).
+
+Definition helem_eqb (a b : helem) : bool :=
+  match a, b with
+  | HField n, HField m | HKeyed n, HKeyed m => Nat.eqb n m
+  | _, _ => false
+  end.
+Definition hstore_eqb (a b : hstore) : bool :=
+  match a, b with
+  | StReturn, StReturn | StSetattr, StSetattr | StAssign, StAssign => true
+  | _, _ => false
+  end.
+Definition hscript_eqb (a b : hscript) : bool :=
+  Bool.eqb (hs_wrapper_arg a) (hs_wrapper_arg b) && hstore_eqb (hs_store a) (hs_store b)
+  && list_eqb helem_eqb (hs_elems a) (hs_elems b).
+
+Definition script_case_ok (k : script_case) : bool :=
+  match k with SC c s => hscript_eqb (make_hash_script c) s end.
+Definition script_model_of (k : script_case) : hscript :=
+  match k with SC c _ => make_hash_script c end.
